@@ -1,6 +1,7 @@
 // C06 replayer (key tier): computes, through the library, the cache key and the cache directory
 // of every configuration it is given.  One input line = one batch:
-//   {"mode":"Serial"|"OpenMP", "items":[{"props":"<occa json text>", "src":"<kernel source>"}...]}
+//   {"mode":"Serial"|"OpenMP", "items":[{"props":"<occa json text>", "src":"<kernel source>", "dev":"<occa json text>"}...]}
+// every item gets its own device handle created from {"mode": mode} + dev (device-level kernel defaults)
 // "@FN:a@" / "@FN:b@" inside the props text are replaced by the hashes of two real captured
 // occa::function objects (the value a `functions` entry holds).
 // Output line: {"beh":i,"keys":[full hash...],"dirs":[cache dir name...],"err":[0|1...]}
@@ -24,7 +25,7 @@ int main(int argc, char **argv) {
   std::string line;
   while (rc::next(line)) {
     mj::Value b = mj::parse(line);
-    occa::device dev({{"mode", b["mode"].str()}});
+    const std::string mode = b["mode"].str();
     const mj::Value &items = b["items"];
     std::string keys = "[", dirs = "[", errs = "[";
     for (size_t j = 0; j < items.size(); ++j) {
@@ -33,6 +34,11 @@ int main(int argc, char **argv) {
       std::string key, dir;
       int err = 0;
       try {
+        std::string dtxt = items[j].has("dev") ? replaceAll(replaceAll(items[j]["dev"].str(), "@FN:a@", ha), "@FN:b@", hb) : "{}";
+        occa::json devProps = occa::json::parse(dtxt);
+        devProps["mode"] = mode;
+        occa::device dev(devProps);
+        if (dev.mode() != mode) throw std::runtime_error("mode not available: " + mode);
         occa::json props = occa::json::parse(ptxt);
         occa::json kernelProps;
         occa::hash_t h;
@@ -44,7 +50,7 @@ int main(int argc, char **argv) {
       if (j) { keys += ","; dirs += ","; errs += ","; }
       keys += mj::quote(key); dirs += mj::quote(dir); errs += std::to_string(err);
     }
-    rc::emit("{\"beh\":" + std::to_string(rc::cur_beh) + ",\"mode\":" + mj::quote(dev.mode()) +
+    rc::emit("{\"beh\":" + std::to_string(rc::cur_beh) + ",\"mode\":" + mj::quote(mode) +
              ",\"fa\":" + mj::quote(ha) + ",\"keys\":" + keys + "],\"dirs\":" + dirs + "],\"err\":" + errs + "]}");
   }
   return 0;
